@@ -28,13 +28,14 @@ import (
 
 func TestMain(m *testing.M) { ev.Main(m) }
 
-const rule = "case = (pattern, package): patterns are (a) every pattern.MustParse literal extracted from the repository's check sources at run time and (b) generated patterns over Symbol/Builtin/Object/Or/Not/Binding/List/IntegerLiteral and AST nodes with symbols drawn from a pool of std functions, methods, types, consts, vars and builtins; packages are a generated call-form zoo (plain, parenthesised callee, function value, method value/expression, generic instantiation, dot import, renamed import, alias, promotion through embedding, conversions, nested calls) and check testdata packages of the repository; oracle = inside a probe analyzer run through the real runner, code.Matches (entry-node, symbol-index and call-site pre-filtering) must yield, for every node on which code.Match succeeds by brute force, a match with equal bindings on that node or on the node it unwraps to (ParenExpr, ExprStmt, DeclStmt, LabeledStmt, one-element block); non-trivial = (pattern, package) with at least one brute-force match and a pattern that has symbols or root call symbols; distinct by (pattern text, package)"
+const rule = "case = (pattern, package): patterns are (a) every pattern.MustParse literal extracted from the repository's check sources at run time and (b) generated patterns over Symbol/Builtin/Object/Or/Not/Binding/List/IntegerLiteral and AST nodes with symbols drawn from a pool of std functions, methods, types, consts, vars and builtins; packages are a generated call-form zoo (plain, parenthesised callee, function value, method value/expression, generic instantiation, dot import, renamed import, alias, promotion through embedding, conversions, nested calls; the zoo imports a drawn subset of the pool's packages and may reach std methods only through fields, results and embedding of a helper package zoo/dep) and check testdata packages of the repository; oracle = inside a probe analyzer run through the real runner, code.Matches (entry-node, symbol-index and call-site pre-filtering) must yield, for every node on which code.Match succeeds by brute force, a match with equal bindings on that node or on the node it unwraps to (ParenExpr, ExprStmt, DeclStmt, LabeledStmt, one-element block), and code.CouldMatchAny over drawn subsets of >= 2 patterns must not return false when one of them has a brute-force match in the package; non-trivial = (pattern, package) with at least one brute-force match and a pattern that has symbols or root call symbols; distinct by (pattern text, package)"
 
 // ---------------------------------------------------------------- probe
 
 type probeConfig struct {
 	patterns []string
 	parsed   []pattern.Pattern
+	subsets  [][]int // pattern index sets handed to code.CouldMatchAny together (S1038, QF1012, SA4032 call it with several patterns)
 }
 
 var current *probeConfig
@@ -129,6 +130,48 @@ func makeProbe() *analysis.Analyzer {
 				return nil, nil
 			}
 			anchor := pass.Files[0].Name
+			brute := make([]int, len(cfg.parsed))
+			defer func() {
+				// code.CouldMatchAny(pass, q1, ..., qk) == false promises that none of the patterns matches anywhere in the package
+				subsets := cfg.subsets
+				if subsets == nil {
+					for i := 0; i+1 < len(cfg.parsed); i++ {
+						subsets = append(subsets, []int{i, i + 1}, []int{i + 1, i})
+					}
+				}
+				for si, sub := range subsets {
+					var qs []pattern.Pattern
+					total := 0
+					for _, i := range sub {
+						if i >= 0 && i < len(cfg.parsed) {
+							qs = append(qs, cfg.parsed[i])
+							total += brute[i]
+						}
+					}
+					if len(qs) == 0 {
+						continue
+					}
+					could := true
+					func() {
+						defer func() {
+							if r := recover(); r != nil {
+								pass.Report(analysis.Diagnostic{Pos: anchor.Pos(), Message: fmt.Sprintf("PANIC %d code.CouldMatchAny%v: %v", sub[0], sub, r)})
+							}
+						}()
+						could = code.CouldMatchAny(pass, qs...)
+					}()
+					if !could && total > 0 {
+						pass.Report(analysis.Diagnostic{Pos: anchor.Pos(), Message: fmt.Sprintf("REJECT %d %v rejected although brute force finds %d matches of these patterns in the package", sub[0], sub, total)})
+					}
+					if si < 64 {
+						verdict := "reject"
+						if could {
+							verdict = "could"
+						}
+						pass.Report(analysis.Diagnostic{Pos: anchor.Pos(), Message: fmt.Sprintf("ANY %d %s %d %d", sub[0], verdict, len(qs), total)})
+					}
+				}
+			}()
 			for i, q := range cfg.parsed {
 				type hit struct {
 					node  ast.Node
@@ -165,6 +208,7 @@ func makeProbe() *analysis.Analyzer {
 							return true
 						}
 						nb++
+						brute[i]++
 						st := renderState(pass.Fset, m.State)
 						found := false
 						for _, cand := range unwrapChain(n) {
@@ -286,60 +330,185 @@ type Case struct {
 	Zoo      string   `json:"zoo"`          // generated package source ("" = none)
 	Dirs     []string `json:"dirs"`         // repository package directories to analyse
 	Shadow   bool     `json:"shadow_local"` // zoo declares a local with the name of a builtin (precondition probe)
+	Dep      string   `json:"dep,omitempty"`     // source of package zoo/dep ("" = none)
+	Subsets  [][]int  `json:"subsets,omitempty"` // pattern index sets for code.CouldMatchAny (nil: adjacent pairs)
 }
 
-const zooHeader = `package zoo
+// The zoo imports only the package groups drawn for it, so that a pattern may
+// name symbols of packages the zoo does not refer to at all, and it may reach
+// std methods only through package zoo/dep (which it imports instead of the
+// std package that declares them).
+var groups = []string{"strings", "bytes", "fmt", "sort", "time", "slices", "os", "io", "errors", "math", "dep"}
+
+var groupImports = map[string]string{
+	"strings": "\t\"strings\"\n\tstr \"strings\"\n",
+	"bytes":   "\t\"bytes\"\n",
+	"fmt":     "\t\"fmt\"\n",
+	"sort":    "\t\"sort\"\n\t. \"sort\"\n",
+	"time":    "\t\"time\"\n\ttm \"time\"\n",
+	"slices":  "\t\"slices\"\n",
+	"os":      "\t\"os\"\n",
+	"io":      "\t\"io\"\n",
+	"errors":  "\t\"errors\"\n",
+	"math":    "\t\"math\"\n",
+	"dep":     "\t\"zoo/dep\"\n",
+}
+
+var groupUses = map[string]string{
+	"strings": "\t_ = strings.ToUpper\n\t_ = str.ToUpper\n",
+	"bytes":   "\t_ = bytes.NewBuffer\n",
+	"fmt":     "\t_ = fmt.Sprint\n",
+	"sort":    "\t_ = sort.Ints\n\t_ = Ints\n",
+	"time":    "\t_ = time.Second\n\t_ = tm.Second\n",
+	"slices":  "\t_ = slices.Contains[[]int]\n",
+	"os":      "\t_ = os.Args\n",
+	"io":      "\t_ = io.EOF\n",
+	"errors":  "\t_ = errors.New\n",
+	"math":    "\t_ = math.Pi\n",
+	"dep":     "\t_ = dep.N\n",
+}
+
+const depSrc = `package dep
 
 import (
 	"bytes"
-	"errors"
-	"fmt"
-	"io"
-	"math"
-	"os"
-	"slices"
-	"sort"
-	. "sort"
 	"strings"
-	str "strings"
 	"time"
-	tm "time"
 )
 
-var (
-	_ = bytes.NewBuffer
-	_ = errors.New
-	_ = fmt.Sprint
-	_ = io.EOF
-	_ = math.Pi
-	_ = os.Args
-	_ = slices.Contains[[]int]
-	_ = sort.Ints
-	_ = Ints
-	_ = strings.ToUpper
-	_ = str.ToUpper
-	_ = time.Second
-	_ = tm.Second
-)
+var N int
 
-type al = strings.Builder
+var SB strings.Builder
 
-type emb struct{ strings.Builder }
+var T0, T1 time.Time
 
+func Buf() *bytes.Buffer { return new(bytes.Buffer) }
+
+type Emb struct{ strings.Builder }
+
+type Holder struct {
+	SB  strings.Builder
+	Buf bytes.Buffer
+	At  time.Time
+}
+
+func Now() time.Time { return time.Now() }
 `
 
-func genZoo(t *rapid.T) string {
+// depUses are call forms that reach std methods through package dep only.
+var depUses = map[string][]string{
+	"(*strings.Builder).WriteString": {`dep.SB.WriteString("x")`, `{ var e dep.Emb; e.WriteString("q") }`, `{ var h dep.Holder; h.SB.WriteString("h") }`, `{ mv := dep.SB.WriteString; mv("y") }`},
+	"(*bytes.Buffer).String":         {`_ = dep.Buf().String()`, `{ var h dep.Holder; _ = h.Buf.String() }`},
+	"(time.Time).Sub":                {`_ = dep.T1.Sub(dep.T0)`, `_ = dep.Now().Sub(dep.T0)`, `{ var h dep.Holder; _ = h.At.Sub(dep.T0) }`},
+}
+
+// needs lists the import groups a call form depends on.
+func needs(use string) []string {
+	var out []string
+	has := func(subs ...string) bool {
+		for _, x := range subs {
+			if strings.Contains(use, x) {
+				return true
+			}
+		}
+		return false
+	}
+	if has("strings.", "str.", "sb.", "em.", "al.", "&sb") {
+		out = append(out, "strings")
+	}
+	if has("buf") {
+		out = append(out, "bytes")
+	}
+	if has("fmt.") {
+		out = append(out, "fmt")
+	}
+	if has("sort.", "Strings(", "(Strings)") {
+		out = append(out, "sort")
+	}
+	if has("time.", "tm.", "t0", "t1") {
+		out = append(out, "time")
+	}
+	if has("slices.") {
+		out = append(out, "slices")
+	}
+	if has("os.") {
+		out = append(out, "os")
+	}
+	if has("io.") {
+		out = append(out, "io")
+	}
+	if has("errors.") {
+		out = append(out, "errors")
+	}
+	if has("math.") {
+		out = append(out, "math")
+	}
+	if has("dep.") {
+		out = []string{"dep"}
+	}
+	return out
+}
+
+// genZoo draws the zoo package and reports whether it imports zoo/dep.
+func genZoo(t *rapid.T) (src string, dep bool) {
+	avail := map[string]bool{}
+	full := rapid.IntRange(0, 3).Draw(t, "allimports") == 0
+	for _, g := range groups {
+		if full || rapid.IntRange(0, 9).Draw(t, "import_"+g) < 6 {
+			avail[g] = true
+		}
+	}
+	if avail["dep"] && rapid.IntRange(0, 1).Draw(t, "deponly") == 0 {
+		// std methods are reachable through zoo/dep only
+		delete(avail, "strings")
+		delete(avail, "bytes")
+		delete(avail, "time")
+	}
+	var cands []string
+	for _, sy := range pool {
+		for _, u := range append(append([]string{}, sy.use...), depUses[sy.name]...) {
+			ok := true
+			for _, n := range needs(u) {
+				if !avail[n] {
+					ok = false
+				}
+			}
+			if ok {
+				cands = append(cands, u)
+			}
+		}
+	}
 	var sb strings.Builder
-	sb.WriteString(zooHeader)
+	sb.WriteString("package zoo\n\n")
+	var imps, uses string
+	for _, g := range groups {
+		if avail[g] {
+			imps += groupImports[g]
+			uses += groupUses[g]
+		}
+	}
+	if imps != "" {
+		sb.WriteString("import (\n" + imps + ")\n\nvar (\n" + uses + ")\n\n")
+	}
+	if avail["strings"] {
+		sb.WriteString("type al = strings.Builder\n\ntype emb struct{ strings.Builder }\n\n")
+	}
 	nf := rapid.IntRange(1, 3).Draw(t, "nfuncs")
 	for f := 0; f < nf; f++ {
-		fmt.Fprintf(&sb, "func zoo%d(s string, ss []string, ns []int, n int, t0, t1 time.Time, err error) {\n", f)
-		sb.WriteString("\tvar sb strings.Builder\n\tvar buf bytes.Buffer\n\tvar em emb\n\tvar al al\n\t_, _, _, _ = &sb, &buf, &em, &al\n")
+		fmt.Fprintf(&sb, "func zoo%d(s string, ss []string, ns []int, n int, err error) {\n", f)
+		if avail["strings"] {
+			sb.WriteString("\tvar sb strings.Builder\n\tvar em emb\n\tvar al al\n\t_, _, _ = &sb, &em, &al\n")
+		}
+		if avail["bytes"] {
+			sb.WriteString("\tvar buf bytes.Buffer\n\t_ = &buf\n")
+		}
+		if avail["time"] {
+			sb.WriteString("\tvar t0, t1 time.Time\n\t_, _ = t0, t1\n")
+		}
 		k := rapid.IntRange(3, 14).Draw(t, "nstmts")
-		for i := 0; i < k; i++ {
-			sy := pool[rapid.IntRange(0, len(pool)-1).Draw(t, "sym")]
-			use := sy.use[rapid.IntRange(0, len(sy.use)-1).Draw(t, "use")]
-			if strings.Contains(use, ":=") || strings.HasPrefix(use, "var ") {
+		for i := 0; i < k && len(cands) > 0; i++ {
+			use := cands[rapid.IntRange(0, len(cands)-1).Draw(t, "use")]
+			if !strings.HasPrefix(use, "{") && (strings.Contains(use, ":=") || strings.HasPrefix(use, "var ")) {
 				use = "{ " + use + " }" // own scope: the same form may be drawn twice
 			}
 			switch rapid.IntRange(0, 5).Draw(t, "wrap") {
@@ -355,13 +524,18 @@ func genZoo(t *rapid.T) string {
 		}
 		sb.WriteString("}\n\n")
 	}
-	return sb.String()
+	return sb.String(), avail["dep"]
 }
 
 // genPattern draws a pattern text over the pool.
 func genPattern(t *rapid.T) string {
 	pick := func(label string, n int) int { return rapid.IntRange(0, n-1).Draw(t, label) }
-	symName := func() string { return pool[pick("psym", len(pool))].name }
+	symName := func() string {
+		if pick("methodsym", 4) == 0 {
+			return []string{"(*strings.Builder).WriteString", "(*bytes.Buffer).String", "(time.Time).Sub"}[pick("msym", 3)]
+		}
+		return pool[pick("psym", len(pool))].name
+	}
 	nbind := 0
 	symNode := func() string {
 		nbind++ // every binding name is created once per pattern
@@ -410,7 +584,7 @@ func genPattern(t *rapid.T) string {
 // ---------------------------------------------------------------- evaluation
 
 func evaluate(c *Case) (msg string, infra string) {
-	cfg := &probeConfig{patterns: c.Patterns}
+	cfg := &probeConfig{patterns: c.Patterns, subsets: c.Subsets}
 	for _, p := range c.Patterns {
 		q, err := (&pattern.Parser{AllowTypeInfo: true}).Parse(p)
 		if err != nil {
@@ -460,6 +634,27 @@ func evaluate(c *Case) (msg string, infra string) {
 					ev.Count("prefiltered_matches", g)
 				case "MISS":
 					fmt.Fprintf(&sb, "package %s, pattern %s\n  brute force matches %s\n  but code.Matches does not yield that node (or what it unwraps to) with these bindings\n", r.Package.PkgPath, c.Patterns[idx], f[2])
+				case "REJECT":
+					fmt.Fprintf(&sb, "package %s: code.CouldMatchAny with patterns %s\n", r.Package.PkgPath, f[2])
+					if a, b := strings.Index(f[2], "["), strings.Index(f[2], "]"); a >= 0 && b > a {
+						for _, w := range strings.Fields(f[2][a+1 : b]) {
+							if k, err := strconv.Atoi(w); err == nil && k >= 0 && k < len(c.Patterns) {
+								fmt.Fprintf(&sb, "  pattern %d: %s\n", k, c.Patterns[k])
+							}
+						}
+					}
+				case "ANY":
+					var verdict string
+					var k, total int
+					fmt.Sscan(f[2], &verdict, &k, &total)
+					if k >= 2 {
+						ev.Count("couldmatchany_multi_pattern_calls", 1)
+						if verdict == "reject" {
+							ev.Count("couldmatchany_multi_pattern_rejections", 1)
+						} else if total > 0 {
+							ev.Count("couldmatchany_multi_pattern_accept_with_matches", 1)
+						}
+					}
 				case "PANIC":
 					fmt.Fprintf(&sb, "package %s, pattern %s: %s\n", r.Package.PkgPath, c.Patterns[idx], f[2])
 				}
@@ -475,6 +670,10 @@ func evaluate(c *Case) (msg string, infra string) {
 		defer os.RemoveAll(dir)
 		os.WriteFile(filepath.Join(dir, "go.mod"), []byte("module zoo\n\ngo 1.26.0\n"), 0o644)
 		os.WriteFile(filepath.Join(dir, "zoo.go"), []byte(c.Zoo), 0o644)
+		if c.Dep != "" {
+			os.MkdirAll(filepath.Join(dir, "dep"), 0o755)
+			os.WriteFile(filepath.Join(dir, "dep", "dep.go"), []byte(c.Dep), 0o644)
+		}
 		if err := rn.Run(rn.Options{Dir: dir}, []*analysis.Analyzer{probe}, []string{"."}, handle); err != nil {
 			return "", "runner (zoo): " + err.Error() + "\n" + c.Zoo
 		}
@@ -506,10 +705,17 @@ func TestGenerated(t *testing.T) {
 	ev.Rule(rule)
 	ev.Assume("symbols named by generated patterns are std symbols, never declared in the analysed package (the property's precondition)")
 	ev.Check(t, "TestGenerated", func(rt *rapid.T) {
-		c := &Case{Zoo: genZoo(rt)}
+		zoo, dep := genZoo(rt)
+		c := &Case{Zoo: zoo}
+		if dep {
+			c.Dep = depSrc
+		}
 		n := rapid.IntRange(4, 16).Draw(rt, "npatterns")
 		for i := 0; i < n; i++ {
 			c.Patterns = append(c.Patterns, genPattern(rt))
+		}
+		for k := rapid.IntRange(2, 10).Draw(rt, "nsubsets"); k > 0; k-- {
+			c.Subsets = append(c.Subsets, rapid.SliceOfN(rapid.IntRange(0, n-1), 2, 4).Draw(rt, "subset"))
 		}
 		js, _ := json.Marshal(c)
 		ev.Begin("TestGenerated", "json", js)
